@@ -1,4 +1,4 @@
-import DcmVerif.Props.SourceStack
+import DcmVerif.Props.Source_stack
 import DcmVerif.Props.C12_add
 import DcmVerif.Proofs.Stack
 /-! Property theorems for C12. Statements only; proofs are by reference to `Proofs/`. -/
